@@ -173,9 +173,15 @@ def build_harness(tags="verif", race=False, name=None):
     rc, log = sh(["timeout", "900"] + cmd, cwd=REPO, env=env)
     return (out if rc == 0 else None), log
 
-def build_srcmodel():
-    out = os.path.join(CACHE, "srcmodel")
-    rc, log = sh(["timeout", "300", "go", "build", "-o", out, "."], cwd=os.path.join(VERIF, "srcmodel"), env=GOENV)
+def build_srcmodel(name=None):
+    """Tier T extractors.  Extractor X lives either in its own Go module /verif/srcmodel_X
+    (binary run as `srcmodel_X X <repo>`) or in the shared module /verif/srcmodel
+    (`srcmodel X <repo>`).  Extractors that need the repository's own packages are built
+    with a `replace` to <repo> by their own go.mod handling (they receive <repo> as argument)."""
+    d = os.path.join(VERIF, "srcmodel_" + name) if name and os.path.isdir(os.path.join(VERIF, "srcmodel_" + name)) \
+        else os.path.join(VERIF, "srcmodel")
+    out = os.path.join(CACHE, os.path.basename(d))
+    rc, log = sh(["timeout", "300", "go", "build", "-o", out, "."], cwd=d, env=GOENV)
     return (out if rc == 0 else None), log
 
 def model_stamp():
